@@ -293,7 +293,10 @@ fn random_scenario(g: &mut GRng, id: u64, seed: u64, max_packets: usize, no_mach
         }
         let delay_us = *[0u64, 0, 1, 10, 1000, 10_000, 50_000].get(g.gen_range(0..7)).unwrap();
         let pps = if !no_machines && g.gen_range(0..8) == 0 {
-            Some(*[1usize, 10, 100, 1000].get(g.gen_range(0..4)).unwrap())
+            // limits >= 1, including values at and beyond the 32-bit boundary
+            Some(*[1usize, 10, 100, 1000, 1000, u32::MAX as usize, 1usize << 32, usize::MAX]
+                .get(g.gen_range(0..8))
+                .unwrap())
         } else {
             None
         };
